@@ -848,7 +848,9 @@ class ValueFunc(Value):
         self.secure = True
 
     def __hash__(self):
-        return hash(self.name)
+        # functions are equal only to themselves; the name can change
+        # (def g = f renames f), so it must not enter the hash
+        return id(self) >> 4
 
     def __eq__(self, other):
         return self is other
